@@ -1,5 +1,6 @@
 #!/usr/bin/env python3
-"""seedtest.py [--tier quick] <seed id>... : apply each seeded change to /repo, run the quick check of its property
+"""seedtest.py [--tier quick] <seed id>... : apply each seeded change to a scratch worktree of /repo (equivalent to
+applying it to /repo and undoing it, but safe while other runs use /repo), run the quick check of its property
 (and any extra properties given as id:Cxx,Cyy), undo it, and record which checks caught it in seeded/RESULTS.json."""
 import json, os, subprocess, sys
 V = '/verif'
@@ -14,17 +15,19 @@ for a in args:
     d = os.path.join(V, 'seeded', sid)
     meta = json.load(open(os.path.join(d, 'meta.json')))
     props = [meta['property']] + ([p for p in extra.split(',') if p] if extra else [])
-    assert subprocess.run(['git', '-C', '/repo', 'status', '--porcelain', '--untracked-files=no'], capture_output=True, text=True).stdout.strip() == '', '/repo not clean'
-    subprocess.run(['git', '-C', '/repo', 'apply', os.path.join(d, 'patch.diff')], check=True)
+    wt = '/tmp/seedwt.%d' % os.getpid()
+    subprocess.run(['git', '-C', '/repo', 'worktree', 'add', '--detach', wt, 'HEAD', '-q'], check=True)
+    subprocess.run(['git', '-C', wt, 'apply', os.path.join(d, 'patch.diff')], check=True)
+    env = dict(os.environ, VERIF_REPO=wt, VERIF_EVIDENCE_DIR=os.path.join(V, '.work', 'evidence_seed'))
     try:
         for p in props:
-            r = subprocess.run([os.path.join(V, 'check'), p, '--tier', tier], capture_output=True, text=True, cwd=V)
+            r = subprocess.run([os.path.join(V, 'check'), p, '--tier', tier], capture_output=True, text=True, cwd=V, env=env)
             keys = [l.strip()[4:] for l in r.stdout.splitlines() if l.startswith('  key=')]
             results.setdefault(sid, {})[p] = dict(rc=r.returncode, caught=r.returncode == 1, keys=keys[:6], tier=tier)
             print('%-8s %s rc=%d %s' % (sid, p, r.returncode, '; '.join(keys[:3])[:200]))
             if r.returncode == 2:
                 print(r.stderr[-600:])
     finally:
-        subprocess.run(['git', '-C', '/repo', 'checkout', '--', '.'], check=True)
+        subprocess.run(['git', '-C', '/repo', 'worktree', 'remove', '--force', wt], check=True)
     json.dump(results, open(res_p, 'w'), indent=1, sort_keys=True)
 # evidence files were rewritten by runs on a mutated tree: callers re-run the checks on the clean tree afterwards
